@@ -3,6 +3,7 @@
 Decided here (structural clauses, see DESIGN.md 4/C09); not decided: equality of the
 descriptor table after arbitrary programs, the simulator's descriptor accounting."""
 from engine import RuleSet
+import re
 import mirq as Q
 import hirq as H
 import pp
@@ -667,3 +668,83 @@ def r1d(cx):
                      'descriptor has been saved: when the target is closed and is the lowest free number, the new file lands on it, the '
                      'save then copies the NEW file, and undoing the redirection restores it instead of closing the target'
                      % pp.callee(t), loc=body.loc(t))
+
+
+# ---------------------------------------------------------------- cancellation (added after the independent audit of the unmodified tree)
+HELD_ACROSS_AWAIT_OK = {
+    # (function, how the descriptor was obtained): reason the suspension cannot happen / cannot be cancelled
+    ('yash_semantics::redir::here_doc::open_fd', 'open_tmpfile'):
+        'the only await while the descriptor is held is write_all to the anonymous temporary file just created: a regular file never makes '
+        'write_all wait, so the future is never suspended (and therefore never dropped) there',
+}
+
+
+@RS.rule('C09.R9', 'K-RES', 'no descriptor the shell has to close is held as a bare number across an await: a built-in without its own signal '
+         'handling (`command ...`) is dropped when SIGINT arrives in an interactive shell, and a dropped future closes nothing')
+def r9(cx):
+    from rules.C08 import await_done
+    F = cx.F
+    CLOSE_P = [re.compile(r'::Close::close$')]
+    # the premise: execute_builtin races the built-in against SIGINT and drops the loser
+    eb = F.main_body('yash_semantics::command::simple_command::builtin::execute_builtin')
+    cx.fn(eb.fn)
+    sel = Q.find_calls(eb, [re.compile(r'(^|::)select$'), re.compile(r'futures_util::future::select')])
+    cx.site('%s races the built-in against SIGINT with select(): %s' % (eb.fn, [eb.loc(t) for _, t in sel] or 'no (nothing is cancelled)'))
+    if not sel:
+        return
+    n = 0
+    for k, b in sorted(F.bodies.items()):
+        if not (k.startswith('yash_semantics::') or k.startswith('yash_builtin::')):
+            continue
+        live = b.live_blocks()
+        ys = [i for i, blk in enumerate(b.blocks) if blk['t']['k'] == 'yield' and i in live]
+        closes = Q.find_calls(b, CLOSE_P) if ys else []
+        if not closes:
+            continue
+        du = Q.DefUse(b)
+        owner = re.sub(r'(::\{closure#\d+\})+$', '', k)
+        cands = []
+        for blk, t in b.calls():
+            if Q.callee_is(t, CLOSE_P) or Q.callee_is(t, Q.AWAIT_CALLS + Q.TRY_BRANCH + Q.PROPAGATING_CALLS):
+                continue
+            ty = b.locals[t['dest']['l']].get('ty', '')
+            sig = F.fns.get(t['f'].get('def') or '') or {}
+            if 'io::Fd' not in ty and 'io::Fd' not in str(sig.get('output') or ''):
+                continue
+            done = await_done(F, b, du, t)
+            start = done if done is not None else t.get('to')
+            if start is not None:
+                cands.append((pp.callee(t).split('::')[-1].split(' ')[0], t['dest']['l'], start, b.loc(t)))
+        # descriptors received as parameters (captured by the coroutine) that this function closes itself
+        for l, d in enumerate(b.locals):
+            defs = du.defs.get(l) or []
+            from_upvar = len(defs) == 1 and defs[0][1] != 't' and defs[0][2].get('k') == 'assign' and defs[0][2]['rv']['k'] == 'use' and \
+                (Q.operand_place(defs[0][2]['rv']['o']) or {}).get('l') == 1 and (Q.operand_place(defs[0][2]['rv']['o']) or {}).get('p')
+            if d.get('name') and d.get('ty') == 'yash_env::io::Fd' and (not defs or from_upvar):
+                cands.append(('parameter `%s`' % d['name'], l, 0, '%s:%s' % (b.file, b.line)))
+        seen_names = set()
+        for how, loc0, start, where in cands:
+            taint = Q.forward_taint(b, {loc0}, through_calls=Q.PROPAGATING_CALLS + Q.AWAIT_CALLS + Q.TRY_BRANCH)
+            mine = {cb for cb, ct in closes if any((Q.operand_place(a) or {}).get('l') in taint for a in ct['a'][1:])}
+            if not mine:
+                continue
+            if how.startswith('parameter') and Q.must_pass(b, [0], mine) is not None:
+                continue          # closed on some paths only: the number is an operand of the operation (`n>&-`), not a descriptor this function owns
+            n += 1
+            reach = b.reachable(start, removed=mine)
+            held = sorted({b.blocks[y]['t'].get('line') for y in ys if y in reach and (b.reachable(y) & mine)})
+            cx.site('%s: descriptor from %s (%s) is closed by this function; awaits while it is held as a bare number: %s'
+                    % (owner, how, where, held or 'none'))
+            if not held or (owner, how) in seen_names:
+                continue
+            seen_names.add((owner, how))
+            why = HELD_ACROSS_AWAIT_OK.get((owner, how.split(' ')[0] if not how.startswith('parameter') else how))
+            if why:
+                cx.site('%s: reviewed: %s' % (owner, why))
+                continue
+            cx.fn(b.fn)
+            cx.violation(owner, 'fd-held-across-await:%s' % how.replace('`', ''), 'the descriptor obtained from %s is kept in a plain variable while the '
+                         'function awaits (source line(s) %s) and is closed by the code after the await: when the computation is cancelled there '
+                         '(`command <this>` interrupted by SIGINT in an interactive shell drops the built-in\'s future) nothing closes it and the '
+                         'shell keeps an extra open descriptor' % (how, held), loc=where)
+    cx.floor(n, 3, 'descriptors obtained and closed within one async function')
